@@ -84,6 +84,11 @@ META = {
             "text": "The model theorem (folding the specified events gives the new contents) is checked exhaustively over 11 782 state/operation pairs; TLC-generated scripts are executed on the real "
                     "observable, a real mirror (local and remote) and a hand-written consumer, and TLC checks that all three equal the reference contents after every operation.",
             "note": "Bounds: 3 values, length <= 4, scripts of depth 4-5 sampled by TLC simulation. Trusted: TLC, harness stepper, JSON projection of contents and events."},
+    "C14": {"technique": "TLA+ model of a bounded event buffer with shedding, lag marker, early drop and size limit (RobsMirror.tla, safety + eventual verdict) + TLC trace validation of mirror views and event streams against the recorded history of the collection (RobsErrTrace, built on Robs.tla)",
+            "text": "TLC checks that a mirror only shows states of the collection's history, applies events without gaps, reports success only with the final contents and always ends with "
+                    "the contents or an error (removing the lag marker is found); on the real code every view of a mirror and every fold of the hand-consumed events must be a state of the logged "
+                    "history in order, an error must be of the kind the scenario explains and sticky, detach must return a state of the history; list subscribers must get 1..n exactly once in order.",
+            "note": "Bounds: 5 operations, buffer 2 in the model; real code: 6-16 mutations, buffers 1-3 / 256, size limits 2-4, lists up to 40 elements. Trusted: TLC, Robs.tla event semantics, harness tracer."},
     "C15": {"technique": "TLA+ model of the watch forwarding chain (Watch.tla, safety + liveness under fairness) + TLC trace validation of observation sequences (WatchTrace)",
             "text": "TLC checks monotonicity and convergence to the last value over all interleavings of sends, forwarding and delivery on a 2-hop chain incl. sender drop after the last send; "
                     "recorded observation sequences of real receivers (local, 1-2 hops, transferred mid-update) are checked for never going backwards and ending on the last value.",
